@@ -237,6 +237,15 @@ def gen_history(rng, tier):
         if kind == "calibration":
             item["which"] = rng.choice(["calibrate", "max_calibrate", "max_calibrate"])
         qs.append(item)
+        if kind == "virtual" and rng.random() < .5:
+            # the same question again (same query variables, same evidence variables) with ANOTHER likelihood on the same variable
+            v0, L0 = item["virt"][0]
+            L1 = [rs(Fraction(rng.randint(1, 10), 10)) for _ in L0]
+            qs.append({"kind": "virtual", "q": list(q), "ev": [[v, rng.randrange(case["card"][v])] for v in ev] if rng.random() < .5 else
+                       [list(e) for e in item["ev"]], "virt": [[v0, L1]]})
+        if kind == "calibration" and rng.random() < .6:
+            # a calibration pass directly followed by a question about one variable, nothing observed
+            qs.append({"kind": rng.choice(["query", "map"]), "q": [rng.randrange(n)], "ev": []})
     case["queries"] = qs
     case["engine"] = rng.choice(["ve", "ve", "bp", "bp"])
     return case
